@@ -117,6 +117,7 @@ def work_net(item):
     tj, style, seed, timeout_ms = item[:4]
     hist = item[4] if len(item) > 4 else "fresh"
     builder = netcheck.history_builders()[hist]
+    runs.set_default_history(hist)
     topo = T_.Topo.from_json(tj)
     rng = random.Random(seed)
     acc = netcheck.Acc(topo.name if hist == "fresh" else f"{topo.name}[{hist}]")
